@@ -253,6 +253,38 @@ theorem engUnary_reuse_alias_witness :
       cell out.st 0 0 = some (.app1 "g" (.src 0 0)) ∧ cell out.st 0 5 = some (.app1 "g" (.src 0 7)) :=
   ⟨_, rfl, rfl, rfl, rfl, rfl⟩
 
+/-- **The destination aliases the operand through another access pattern - every shape** (finding F123, repaired). When the
+    reuse tensor `r` shares memory with the operand `a` without addressing exactly its cells in its sequence (a shallow
+    clone with a pending transpose, an overlapping window of one parent), the operand is read from a copy: at every
+    position `k` of the logical order `r`'s cell receives `g` of the element `a` held at `k` *before the call*, i.e. the
+    safe-mode value by coordinate; nothing outside `r`'s buffer changes. -/
+theorem engUnary_reuse_alias (st : St) (g : UnF) (tc kt : List String) (strict : Bool) (a r : Dense)
+    (htc : a.dt ∈ tc) (hk : a.dt ∈ kt)
+    (hr : ReuseFits r a.shape a.dt a.ap.o.col)
+    (hsh : sharesMemory a r = true) (hsa : sameAccess a r = false)
+    (hu : (a.requiresIterator || (r.requiresIterator || !sameOrd r a)) = true)
+    (hma : a.mask = none) (hmr : r.mask = none) (hcr : r.win.len ≤ r.win.cap)
+    (hor : ∀ i ∈ r.offsets, 0 ≤ i ∧ i < (r.win.len : Int)) (hoa : ∀ j ∈ a.offsets, 0 ≤ j ∧ j < (a.win.len : Int))
+    (hnd : r.offsets.Nodup)
+    (hA : InBuf st a.win.buf a.win.off a.win.len) (hR : InBuf st r.win.buf r.win.off r.win.len) :
+    ∃ out, engUnary st g tc kt strict a { reuse := some r } = .ok out ∧ out.ret = .reuse ∧ out.reuse = some r ∧
+      out.st.mheap = st.mheap ∧
+      (∀ (k : Nat) m j, r.offsets[k]? = some m → a.offsets[k]? = some j →
+        ∃ x, cell st a.win.buf (a.win.off + j.toNat) = some x ∧
+          cell out.st r.win.buf (r.win.off + m.toNat) = some (g x)) ∧
+      (∀ b' k', b' < st.heap.size → b' ≠ r.win.buf → cell out.st b' k' = cell st b' k') := by
+  obtain ⟨st', h, hm, hv, hfr⟩ := engUnary_reuse_alias' st g tc kt strict a r (by simpa using htc) (by simpa using hk) hr
+    hsh hsa hu hma hmr hcr hor hoa hnd hA hR
+  refine ⟨_, h, rfl, rfl, hm, ?_, hfr⟩
+  intro k m j hk' hj
+  have hj' := hoa j (List.mem_of_getElem? hj)
+  exact ⟨_, cell_some_cellD (hA.has.at hj'.1 hj'.2), hv k m j hk' hj⟩
+
+/-- its hypotheses hold for the transposed alias of a 3×3 matrix -/
+example := engUnary_reuse_alias AW.st (fun x => .app1 "g" x) floatTypes floatTypes true AW.a AW.r (by decide) (by decide)
+  ⟨rfl, by decide, by decide, rfl⟩ (by decide) (by decide) (by decide) rfl rfl (by decide) (by decide) (by decide) (by decide)
+  ⟨_, rfl, by decide⟩ ⟨_, rfl, by decide⟩
+
 /-! ## non-vacuity -/
 namespace Ex
 def st : St := { heap := #[#[.src 0 0, .src 0 1, .src 0 2, .src 0 3], #[.src 1 0, .src 1 1, .src 1 2, .src 1 3]] }
